@@ -996,7 +996,9 @@ Inv_C15_RemotePhaseRefsCurrent ==
     => \A j \in 1..NPhases(PR) :
          IsDelegated(PR, j) =>
            LET k == PR.snap.cr.phases[j].phaseKey IN
-           (k \in Keys /\ PR.phfirst[k].valid /\ PR.phfirst[k].o.exists)
+           \* (only for phases the phase loop reached: behind a failing phase nothing is refreshed - see the C09 known finding)
+           (k \in Keys /\ PR.phfirst[k].valid /\ PR.phfirst[k].o.exists
+              /\ \A i \in 1..(j - 1) : \A x \in PhaseWriteKeys(PR, i) : PR.obs[x].valid /\ PR.obs[x].present /\ PR.obs[x].passes)
            => \A i \in DOMAIN W.args.body.cr.remotePhases :
                 W.args.body.cr.remotePhases[i].id = PR.phfirst[k].o.oid => W.args.body.cr.remotePhases[i].uid = PR.phfirst[k].o.uid
 
